@@ -34,7 +34,8 @@ pub enum Op {
     Receivership { lq: u16, le: u16, wb: u16, wamt: u64, rb: u16, ramt: u64, rel: u8 },
     /// flash-loan bracket: start, borrow(b,amt), [repay_all], end
     Flash { u: u16, b: u16, amt: u64, rel: u8, repay: bool },
-    /// admin reconfiguration: kind 0 deposit limit, 1 borrow limit, 2 op state, 3 init limit
+    /// admin reconfiguration: kind 0 deposit limit, 1 borrow limit, 2 op state, 3 init limit,
+    /// 4 asset tag (val % 7: default, SOL, staked, kamino, drift, solend, invalid)
     Configure { b: u16, kind: u8, val: u64 },
     /// bank sunset steps: 0 = admin allows token-less repayments on the bank, 1 = risk admin forces
     /// "repayments complete", 2 = risk admin purges user u's balance in the bank,
@@ -152,6 +153,7 @@ pub fn op_strategy() -> impl Strategy<Value = Op> {
         4 => (i(), i(), i(), amt_rel(), i(), amount_abs_strategy()).prop_map(|(lq, le, wb, (wamt, rel), rb, ramt)| Op::Receivership { lq, le, wb, wamt, rb, ramt, rel }),
         3 => (i(), i(), amt_rel(), any::<bool>()).prop_map(|(u, b, (amt, rel), repay)| Op::Flash { u, b, amt, rel, repay }),
         3 => (i(), 0u8..4, prop_oneof![Just(0u64), Just(1u64), Just(u64::MAX), amount_abs_strategy()]).prop_map(|(b, kind, val)| Op::Configure { b, kind, val }),
+        2 => (i(), 0u64..7).prop_map(|(b, val)| Op::Configure { b, kind: 4, val }),
         4 => (i(), i(), prop_oneof![1 => Just(0u8), 1 => Just(1u8), 3 => Just(2u8), 2 => Just(3u8)]).prop_map(|(b, u, step)| Op::Sunset { b, u, step }),
         1 => i().prop_map(|u| Op::Transfer { u }),
         1 => i().prop_map(|u| Op::CloseAccount { u }),
@@ -240,7 +242,7 @@ pub fn bank_strategy(cfg: &GenCfg) -> impl Strategy<Value = BankSpec> {
                 oracle,
                 emode_tag: 0,
                 emode_entries: vec![],
-                asset_tag: 0,
+                asset_tag: (fee_max % 3 == 1) as u8,
                 op_state: 1,
                 permissionless_bad_debt: permless,
             }
@@ -713,6 +715,7 @@ impl Runner {
                     0 => o.deposit_limit = Some(*val),
                     1 => o.borrow_limit = Some(*val),
                     2 => o.operational_state = Some(op_state((*val % 3) as u8)),
+                    4 => o.asset_tag = Some((*val % 7) as u8),
                     _ => o.total_asset_value_init_limit = Some(*val),
                 }
                 st.ixs = vec![self.w.ix_configure_bank(bi, o, self.w.roles.admin)];
@@ -1071,7 +1074,7 @@ pub fn decode_case(data: &[u8]) -> (WorldSpec, Vec<Op>) {
                 let (amt, rel) = dec_amount(&mut r);
                 Op::Flash { u: r.u16(), b: r.u16(), amt, rel, repay: r.bool() }
             }
-            29 => Op::Configure { b: r.u16(), kind: r.u8() % 4, val: match r.u8() % 4 { 0 => 0, 1 => 1, 2 => u64::MAX, _ => r.u64() >> (r.u8() % 50) } },
+            29 => Op::Configure { b: r.u16(), kind: r.u8() % 5, val: match r.u8() % 4 { 0 => 0, 1 => 1, 2 => u64::MAX, _ => r.u64() >> (r.u8() % 50) } },
             30 => match r.u8() % 4 {
                 3 => Op::Sunset { b: r.u16(), u: r.u16(), step: r.u8() % 4 },
                 0 => Op::Transfer { u: r.u16() },
